@@ -187,6 +187,67 @@ def main():
                     if stats["scenarios"] % 97 == 0 and len(samples) < 8:
                         samples.append({"levels": levels, "defined_per_level": [list(x) for x in combo], "lookups": {n: (expected(n) or ["UndeclaredReference"])[-1] if expected(n) is None else expected(n)[2][0][1] for n in names}})
                 stats["functions"] |= eng.stats["functions"]
+        # ---- the function registry itself (C20: a host function registered under a built-in's name replaces it; lookups go to the root)
+        reg = {n.split("::")[-1].split("#")[0]: f for n, f in fns.items() if re.match(r"^magic::<impl at [^>]*>::(add|get|has)(#\d+)?$", n)}
+        f_addfn = find("::add_function")
+        if set(reg) != {"add", "get", "has"}:
+            raise Unsupported("FunctionRegistry::add/get/has not found (%s)" % sorted(reg))
+
+        def txt(x):
+            x = x if not isinstance(x, Ref) else None
+            return None
+
+        def key_of(e, k):
+            k = deref(e, k)
+            return k[1].decode() if isinstance(k[1], bytes) else k[1]
+        rext = [
+            (r"^<F as IntoFunction<T>>::into_function$", lambda e, m, a: ("boxed_fn", a[0])),
+            (r"^HashMap::<std::string::String, Box<dyn .*>>::insert$", lambda e, m, a: (lambda hm, k, v: (("Some", hm[1].pop(k)) if k in hm[1] else ("None",), hm[1].__setitem__(k, v))[0])(deref(e, a[0]), key_of(e, a[1]), a[2])),
+            (r"^HashMap::<std::string::String, Box<dyn .*>>::get::<str>$", lambda e, m, a: (lambda hm, k: ("Some", Ref({0: hm[1][k]}, 0, ())) if k in hm[1] else ("None",))(deref(e, a[0]), key_of(e, a[1]))),
+            (r"^HashMap::<std::string::String, Box<dyn .*>>::contains_key::<str>$", lambda e, m, a: key_of(e, a[1]) in deref(e, a[0])[1]),
+            (r"^FunctionRegistry::add::<F, T>$", lambda e, m, a: e.call_fn(reg["add"], a)),
+            (r"^(?:magic::)?FunctionRegistry::(get|has)$", lambda e, m, a: e.call_fn(reg[m.group(1)], a)),
+            (r"^<str as ToString>::to_string$", lambda e, m, a: ("string", a[0][1].decode())),
+        ] + [x for x in extern if "FunctionRegistry" not in x[0]]
+        for levels in (1, 2, 3):
+            stats["scenarios"] += 1
+            functions = ("map", {"size": ("boxed_fn", ("builtin", "size")), "max": ("boxed_fn", ("builtin", "max"))})
+            root = {0: ("enum", "Context::Root", [[functions], ("map", {})])}
+            top = Ref(root, 0, ())
+            holders_ = [root]
+            for lv in range(1, levels):
+                h = {0: ("enum", "Context::Child", [top, ("map", {})])}
+                holders_.append(h)
+                top = Ref(h, 0, ())
+            eng = Engine(fns, consts, rext)
+            eng.discriminants = {"Context::Root": 0, "Context::Child": 1, "Result::Ok": 0, "Result::Err": 1, "ControlFlow::Continue": 0, "ControlFlow::Break": 1}
+            eng.steps = 0
+            probs = []
+            look = lambda nm: eng.call_fn(find("::get_function"), [top, ("str", nm.encode())])
+            has = lambda nm: eng.call_fn(find("::has_function"), [top, ("str", nm.encode())])
+            got = look("size")
+            if not (got[0] == "Some" and deref(eng, got[1]) == ("boxed_fn", ("builtin", "size"))):
+                probs.append("lookup of a built-in from scope depth %d gives %r" % (levels, got))
+            # registration happens on the root context
+            eng.call_fn(f_addfn, [Ref(root, 0, ()), ("str", b"size"), ("host", "my_size")])
+            eng.call_fn(f_addfn, [Ref(root, 0, ()), ("str", b"fresh"), ("host", "fresh")])
+            stats["paths"] += 6
+            got = look("size")
+            if not (got[0] == "Some" and deref(eng, got[1]) == ("boxed_fn", ("host", "my_size"))):
+                probs.append("a host function registered under a built-in's name does not replace it: lookup gives %r" % (got,))
+            got = look("fresh")
+            if not (got[0] == "Some" and deref(eng, got[1]) == ("boxed_fn", ("host", "fresh"))) or not has("fresh"):
+                probs.append("a newly registered function is not found from scope depth %d" % levels)
+            got = look("max")
+            if not (got[0] == "Some" and deref(eng, got[1]) == ("boxed_fn", ("builtin", "max"))):
+                probs.append("registering one function changed another: max is now %r" % (got,))
+            if look("absent")[0] != "None" or has("absent"):
+                probs.append("a name that was never registered is found")
+            if probs:
+                failures.append({"levels": levels, "defined": "function registry", "problems": probs[:4]})
+            else:
+                stats["proved"] += 1
+            stats["functions"] |= eng.stats["functions"]
     except (Unsupported, PanicFound) as u:
         status = 2
         print("INCONCLUSIVE: %s" % u)
